@@ -95,8 +95,15 @@ func (ev *Eval) noteRange(t types.Type, term string) {
 		return
 	}
 	if _, _, ok := intInfo(t); !ok {
-		switch types.Unalias(t).Underlying().(type) {
+		switch u := types.Unalias(t).Underlying().(type) {
 		case *types.Slice, *types.Map, *types.Struct:
+		case *types.Pointer:
+			// a stored pointer to a struct refers to an allocated object (or is nil): below the watermark of the memory read
+			if _, isStruct := structOf(u.Elem()); isStruct && ev.s.mode != "bv" {
+				k := "next_" + sortID(ev.s.sortOf(u.Elem()))
+				*ev.pending = append(*ev.pending, "(and (<= 0 "+term+") (< "+term+" "+ev.s.ghostGet(ev.mem, k, "Int")+"))")
+			}
+			return
 		default:
 			return
 		}
@@ -197,6 +204,12 @@ func (ev *Eval) lookupType(name string) types.Type {
 			if t := try(imp); t != nil {
 				return t
 			}
+		}
+	}
+	// a sort alias declared in the contracts ("sort Bytes8 = [8]byte")
+	if _, ok := ev.g.db.SortAlias[name]; ok {
+		if _, gt := ev.specSort(name, ev.calleePkg); gt != nil {
+			return gt
 		}
 	}
 	return nil
@@ -354,6 +367,18 @@ func (ev *Eval) eval(e Expr) Val {
 		sub.bound[x.Name] = v
 		return sub.eval(x.Body)
 	case *EQuant:
+		if lo, hi, body, ok := constRangeQuant(x); ok {
+			// forall v :: c1 <= v && v < c2 ==> body with small constant bounds: the conjunction of the
+			// instances (constant indices select array elements directly; no trigger needed)
+			var parts []string
+			for k := lo; k < hi; k++ {
+				sub := ev.sub()
+				sub.pending = ev.pending
+				sub.bound[x.Vars[0]] = Val{K: big.NewInt(k)}
+				parts = append(parts, sub.term(sub.eval(body)))
+			}
+			return Val{Term: and(parts...), T: types.Typ[types.Bool]}
+		}
 		sub := ev.sub()
 		var decls, typed []string
 		for i, v := range x.Vars {
@@ -869,6 +894,15 @@ func (ev *Eval) callExpr(x *ECall) Val {
 		ks, vs := s.sortOf(mt.Key()), s.sortOf(mt.Elem())
 		k := ev.term(ev.coerce(ev.eval(x.Args[1]), mt.Key()))
 		return Val{Term: "(and (not " + s.mapPart(ks, vs, "mnil", cur) + ") (select " + s.mapPart(ks, vs, "mhas", cur) + " " + k + "))", T: boolT}
+	case "visited":
+		// visited(k): the enclosing range-over-map loop has already produced key k
+		if ev.resolve != nil && len(x.Args) == 1 {
+			if set, ok := ev.resolve("visited"); ok {
+				k := ev.term(ev.coerce(ev.eval(x.Args[0]), set.mapT.Key()))
+				return Val{Term: "(select " + set.Term + " " + k + ")", T: boolT}
+			}
+		}
+		ev.fail("visited(k) is only meaningful in an invariant of a range-over-map loop")
 	case "isnil":
 		v := ev.eval(x.Args[0])
 		if v.mapT != nil {
@@ -1174,7 +1208,17 @@ func (ev *Eval) declareDefine(d *Define, argSorts []string, argTypes []types.Typ
 	if d.Rec {
 		kw = "define-fun-rec"
 	}
+	done := false
+	defer func() {
+		if !done {
+			// the body failed to evaluate: declare the symbol uninterpreted so the scripts stay well-formed;
+			// the evaluation error surfaces as the function's #bind failure
+			s.funDecl = append(s.funDecl, fmt.Sprintf("(declare-fun u_%s (%s) %s)", d.Name, strings.Join(argSorts, " "), retSort))
+			ev.fe.top.bindErrs = append(ev.fe.top.bindErrs, "define "+d.Name+": body cannot be evaluated")
+		}
+	}()
 	body := sub.term(sub.eval(d.Body))
+	done = true
 	s.funDecl = append(s.funDecl, fmt.Sprintf("(%s u_%s (%s) %s %s)", kw, d.Name, strings.Join(ps, " "), retSort, body))
 }
 
@@ -1211,6 +1255,19 @@ func domDepth(b *ssa.BasicBlock) int {
 // loopResolver resolves source-level names at loop header h.
 func (fe *FnEnc) loopResolver(h *ssa.BasicBlock, over map[*ssa.Phi]Val, ev *Eval) func(string) (Val, bool) {
 	return func(name string) (Val, bool) {
+		if name == "visited" {
+			for _, ins := range h.Instrs {
+				if nx, ok := ins.(*ssa.Next); ok {
+					if rg, ok := nx.Iter.(*ssa.Range); ok {
+						if it, ok := fe.vals[rg]; ok && len(it.Tup) == 1 && it.Tup[0].Map != nil {
+							gk, srt := fe.iterKey(rg, it.Tup[0].Map)
+							return Val{Term: fe.s.ghostGet(ev.mem, gk, srt), mapT: it.Tup[0].Map.T}, true
+						}
+					}
+				}
+			}
+			return Val{}, false
+		}
 		for _, ins := range h.Instrs {
 			p, ok := ins.(*ssa.Phi)
 			if !ok {
@@ -1389,4 +1446,49 @@ func (g *Gen) parseTypeExpr(x string, pk *types.Package) types.Type {
 		}
 	}
 	return nil
+}
+
+// constRangeQuant recognises "forall v :: lo <= v && v < hi ==> body" (v an int, lo/hi literals,
+// at most 64 instances, no explicit trigger).
+func constRangeQuant(x *EQuant) (lo, hi int64, body Expr, ok bool) {
+	if !x.Forall || len(x.Vars) != 1 || len(x.Pats) > 0 || (x.Sorts[0] != "" && x.Sorts[0] != "int") {
+		return
+	}
+	imp, isImp := x.Body.(*EBin)
+	if !isImp || imp.Op != "==>" {
+		return
+	}
+	cj, isAnd := imp.L.(*EBin)
+	if !isAnd || cj.Op != "&&" {
+		return
+	}
+	v := x.Vars[0]
+	isV := func(e Expr) bool { n, ok := e.(*EName); return ok && n.Name == v }
+	num := func(e Expr) (int64, bool) {
+		n, ok := e.(*ENum)
+		if !ok || !n.V.IsInt64() {
+			return 0, false
+		}
+		return n.V.Int64(), true
+	}
+	l, lok := cj.L.(*EBin)
+	r, rok := cj.R.(*EBin)
+	if !lok || !rok {
+		return
+	}
+	a, aok := num(l.L)
+	if !(aok && l.Op == "<=" && isV(l.R)) {
+		return
+	}
+	b, bok := num(r.R)
+	if !(bok && isV(r.L) && (r.Op == "<" || r.Op == "<=")) {
+		return
+	}
+	if r.Op == "<=" {
+		b++
+	}
+	if b-a > 64 || b < a {
+		return
+	}
+	return a, b, imp.R, true
 }
